@@ -23,7 +23,7 @@ struct Case {
     target_pos: u8,
     /// what else the instance carries (left behind by other API calls): bit 0 = the target variable has a recorded
     /// value (partial_evaluate), bit 1 = that value is fractional, bit 2 = the instance records parameter values
-    /// (with_parameters), bit 3 = a removed constraint exists, bit 5 = follow up with substitute + tightened bound + second encoding of the same variable
+    /// (with_parameters), bit 3 = a removed constraint exists, bit 5 = follow up with substitute + tightened bound + second encoding of the same variable, bit 6 = the variable with the largest id is a dependent variable (eliminated by an earlier substitute)
     decor: u8,
 }
 
@@ -93,6 +93,21 @@ fn build(case: &Case) -> (v1::Instance, u64) {
         rc.constraint = Some(c);
         rc.removed_reason = "relaxed".into();
         inst.removed_constraints.push(rc);
+    }
+    if case.decor & 64 != 0 {
+        // the variable holding the LARGEST id was eliminated by an earlier substitute: it is still a decision variable of
+        // the instance and a key of the dependency map (fresh ids must lie above it all the same)
+        let top = inst.decision_variables.iter().map(|v| v.id).max().unwrap();
+        let dep = if top == target || top == SECOND_ID {
+            let mut v = v1::DecisionVariable::default();
+            v.id = top + 3;
+            v.kind = KIND_CONTINUOUS;
+            inst.decision_variables.insert(0, v);
+            top + 3
+        } else {
+            top
+        };
+        inst.decision_variable_dependency.insert(dep, crate::mk::flin(crate::mk::linear(vec![(SECOND_ID, 3.0)], 1.0)));
     }
     (inst, if case.class == 1 { 4242 } else { target })
 }
@@ -338,6 +353,9 @@ fn decode(t: &mut Tape, ctx: &mut Ctx) -> Case {
     if decor & 1 != 0 {
         ctx.label("target-has-recorded-value");
     }
+    if decor & 64 != 0 {
+        ctx.label("largest-id-is-a-dependent-variable");
+    }
     if decor & 4 != 0 {
         ctx.label("instance-records-parameters");
     }
@@ -478,12 +496,12 @@ impl Property for C12 {
         "C12"
     }
     fn rule(&self) -> &'static str {
-        "sweep = every lower in [-6,6] x every width 0..600 (quick) / 0..4096 (thorough) plus widths 2^k-1, 2^k, 2^k+1 up to 4097, each checked on ALL bit patterns; random = ranges with |l|,|u|<=2^20, fractional bounds, doubles adjacent to integers, empty ranges hugging an integer, points at infinity, other variables with larger ids, a recorded value on the variable, recorded parameter values / removed constraints on the instance, encode -> substitute -> tighten -> encode again, and every error class (unknown id, binary/continuous kind, no bound, lower=-inf, upper=+inf, both, NaN, no integer inside; the infinite/NaN classes run in a child process under a 20 s / 4 GB limit because the statement is 'an error, not a hang'); \
+        "sweep = every lower in [-6,6] x every width 0..600 (quick) / 0..4096 (thorough) plus widths 2^k-1, 2^k, 2^k+1 up to 4097, each checked on ALL bit patterns; random = ranges with |l|,|u|<=2^20, fractional bounds, doubles adjacent to integers, empty ranges hugging an integer, points at infinity, other variables with larger ids, a recorded value on the variable, recorded parameter values / removed constraints on the instance, the largest id held by a dependent (substituted) variable, encode -> substitute -> tighten -> encode again, and every error class (unknown id, binary/continuous kind, no bound, lower=-inf, upper=+inf, both, NaN, no integer inside; the infinite/NaN classes run in a child process under a 20 s / 4 GB limit because the statement is 'an error, not a hang'); \
          oracle = value set over all bit patterns (width<=4096) or complete-sequence criterion; non-trivial = width>=2 and not 2^k-1, or an error class; distinct = (lower, upper, class, layout)"
     }
     fn required_labels(&self) -> Vec<String> {
         let mut v: Vec<String> = CLASS_NAMES.iter().map(|c| format!("class={c}")).collect();
-        v.extend(["fractional-bound", "width>4096", "single-integer", "oracle=all-bit-patterns", "oracle=complete-sequence", "child-process", "second-encode", "target-has-recorded-value", "instance-records-parameters", "encode-substitute-encode", "upper-one-ulp-below-integer", "lower-one-ulp-above-integer", "empty-range-hugging-an-integer", "bound-is-a-point-at-infinity"].iter().map(|s| s.to_string()));
+        v.extend(["fractional-bound", "width>4096", "single-integer", "oracle=all-bit-patterns", "oracle=complete-sequence", "child-process", "second-encode", "target-has-recorded-value", "instance-records-parameters", "encode-substitute-encode", "upper-one-ulp-below-integer", "lower-one-ulp-above-integer", "empty-range-hugging-an-integer", "bound-is-a-point-at-infinity", "largest-id-is-a-dependent-variable"].iter().map(|s| s.to_string()));
         v
     }
     fn cases(&self, tier: Tier) -> usize {
@@ -570,7 +588,7 @@ impl Property for C12 {
         if case.class != 0 || (w >= 2.0 && !((w as u64 + 1).is_power_of_two())) {
             ctx.nontrivial();
         }
-        ctx.fp_dbg(&(case.lower.to_bits(), case.upper.to_bits(), case.class, case.others % 6, case.target_pos, case.decor & 63));
+        ctx.fp_dbg(&(case.lower.to_bits(), case.upper.to_bits(), case.class, case.others % 6, case.target_pos, case.decor & 127));
         ctx.sample_with(|| json!({"lower": format!("{}", case.lower), "upper": format!("{}", case.upper), "class": CLASS_NAMES[case.class as usize], "other_variables": case.others % 6}));
         if matches!(case.class, 5 | 6 | 7 | 8) {
             ctx.label("child-process");
